@@ -525,8 +525,12 @@ def _range_encoding(ctx):
         cs = const_str_set(b)
         if any(b"-" in c for c in cs):
             dash = True
-        for bb, i, st in binop_sites(b, ("Eq", "Ne", "Lt", "Le", "Gt", "Ge")):
-            sa = du.slice_operand(st["rv"]["a"]); sb = du.slice_operand(st["rv"]["b"])
+        cmps = [(bb, st["rv"]["a"], st["rv"]["b"]) for bb, i, st in binop_sites(b, ("Eq", "Ne", "Lt", "Le", "Gt", "Ge"))]
+        # comparisons of references (`start == end` on pattern-bound &usize) are trait calls, not binops
+        cmps += [(bb, t["args"][0], t["args"][1]) for bb, t in b.calls() if len(t["args"]) == 2 and (callee_decl(t) or "") in (
+            "std::cmp::PartialEq::eq", "std::cmp::PartialEq::ne", "std::cmp::PartialOrd::lt", "std::cmp::PartialOrd::le", "std::cmp::PartialOrd::gt", "std::cmp::PartialOrd::ge", "std::cmp::Ord::cmp", "std::cmp::PartialOrd::partial_cmp")]
+        for bb, opa, opb in cmps:
+            sa = du.slice_operand(opa); sb = du.slice_operand(opb)
             fa = {(a or "").rsplit("::", 1)[-1] + "." + n for a, n in sa.fields} | {c.rsplit("::", 1)[-1] for c in sa.calls}
             fb = {(a or "").rsplit("::", 1)[-1] + "." + n for a, n in sb.fields} | {c.rsplit("::", 1)[-1] for c in sb.calls}
             if (("Range.0" in fa or "start" in fa) and ("Range.1" in fb or "end" in fb)) or (("Range.1" in fa or "end" in fa) and ("Range.0" in fb or "start" in fb)):
